@@ -18,9 +18,11 @@
  *     l<fl>:<cb>               tickit_watch_later
  *     wi<fdi>:<cond>:<fl>:<cb> tickit_watch_io on descriptor number fdi of the harness
  *     ws<sig>:<fl>:<cb>        tickit_watch_signal(sig)
- *     wp<fl>:<cb>              tickit_watch_process (a pid that is not a child)
+ *     wp<fl>:<cb>              tickit_watch_process of the child that belongs to this watch (waitpid is scripted: X, H)
  *     c<id>                    tickit_watch_cancel of watch number id if it is still live
  *     s                        tickit_stop (C18)
+ *     d                        tickit_unref: the application drops its (only) reference.  From a callback the instance
+ *                              lives on until tickit_tick returns; the script ends there
  *     e<n>                     errno = n
  *     k<sig>                   raise(sig) if sig is currently watched (stays blocked)
  *     -                        nothing
@@ -29,6 +31,10 @@
  *     o                        tickit_tick(NOSETUP): ppoll sleeps for the time-out asked
  *     u<k>                     (C18) tickit_run: passes until a callback calls tickit_stop; the harness
  *                              calls it itself from inside the k-th ppoll of the run
+ *     X<id>:<status>           the child of (present or future) watch number id exits with wait status <status>
+ *     H                        the event loop dispatches SIGCHLD (tickit_evloop_invoke_sigwatches)
+ *     G<sig>                   the event loop dispatches signal sig (tickit_evloop_invoke_sigwatches)
+ *   A case that starts with WS / WP is a chain case (model coq/LoopChain.v): only signal / only process watches.
  *     R<fdi>:<revents>         descriptor fdi is ready with revents at the next ppoll
  *     K<sig>                   sig arrives while the next ppoll is waiting
  *     B<sig>                   (F cases) sig arrives right after the next read of the self-pipe's wakeup byte
@@ -55,6 +61,7 @@
 #include <sys/time.h>
 #include <time.h>
 #include <unistd.h>
+#include <sys/wait.h>
 
 size_t __sanitizer_get_current_allocated_bytes(void);  /* libasan */
 
@@ -75,7 +82,11 @@ static int fds[NFD];            /* read ends of pipes */
 static int ready[NFD];          /* scripted revents by harness descriptor number */
 static int inwait[8], ninwait;  /* signals arriving while ppoll waits */
 static int sleep_mode, quiet;
-static int run_mode, run_count, run_limit;   /* u<k>: tickit_run; the k-th ppoll of the run stops the loop */
+static int run_mode, run_count, run_limit;
+/* process watches: the child of watch number id has pid PIDBASE + id; waitpid is replaced at link time */
+#define PIDBASE 1000000
+static int child_status[MAXW];   /* >= 0: exited with this status, not yet reaped; -1 running; -2 reaped */
+static int dropped;              /* d: the application's reference has been dropped (from a callback or between ops) */   /* u<k>: tickit_run; the k-th ppoll of the run stops the loop */
 static char out[1 << 18];
 static size_t outn;
 
@@ -88,6 +99,17 @@ int __wrap_gettimeofday(struct timeval *tv, void *tz)
   long long v = BASE_SEC * 1000000LL + vclock;
   tv->tv_sec = v / 1000000; tv->tv_usec = v % 1000000;
   return 0;
+}
+
+pid_t __wrap_waitpid(pid_t pid, int *status, int options)
+{
+  int id = (int)pid - PIDBASE;
+  if(id < 0 || id >= MAXW) { errno = ECHILD; return -1; }
+  if(child_status[id] == -2) { errno = ECHILD; return -1; }
+  if(child_status[id] < 0) return 0;               /* still running (WNOHANG) */
+  if(status) *status = child_status[id];
+  child_status[id] = -2;
+  return pid;
 }
 
 int __wrap_ppoll(struct pollfd *pf, nfds_t n, const struct timespec *ts, const sigset_t *mask)
@@ -137,10 +159,12 @@ static int on_ev(Tickit *t, TickitEventFlags flags, void *info, void *user)
   struct W *w = user;
   long long x = w->x;
   if(w->kind == K_IO) x = (flags & TICKIT_EV_FIRE) && info ? ((TickitIOWatchInfo *)info)->cond : 0;
+  if(w->kind == K_PROC) x = (flags & TICKIT_EV_FIRE) && info ? ((TickitProcessWatchInfo *)info)->wstatus : 0;
   OUT("e%d:%d:%d:%d:%lld:%lld ", w->id, w->kind, (int)flags, iter, vclock, x);
   if(flags & (TICKIT_EV_UNBIND | TICKIT_EV_DESTROY)) w->live = 0;
   if((flags & TICKIT_EV_FIRE) && w->cb >= 0 && w->cb < MAXCB && cbs[w->cb])
     run_acts(cbs[w->cb], 0);
+  if((flags & TICKIT_EV_FIRE) && w->kind == K_PROC) w->live = 0;   /* a process watch is gone once its callback returns */
   if(flags == TICKIT_EV_UNBIND && w->cb >= 0 && w->cb < MAXCB && ubs[w->cb])
     run_acts(ubs[w->cb], 2);
   return 0;
@@ -200,7 +224,7 @@ static int do_act(const char *a)
     sscanf(a + 2, "%lld:%lld", &p[0], &p[1]);
     struct W *w = neww(K_PROC, p[1], 0);
     if(!w) return 1;
-    w->watch = tickit_watch_process(T, 0x3ffffffe, p[0], on_ev, w);
+    w->watch = tickit_watch_process(T, PIDBASE + w->id, p[0], on_ev, w);
     return 1;
   }
   if(a[0] == 'c') {
@@ -218,6 +242,7 @@ static int do_act(const char *a)
     return 1;
   }
   if(a[0] == 's' && a[1] == 0) { tickit_stop(T); return 1; }
+  if(a[0] == 'd' && a[1] == 0) { if(T && !dropped) { dropped = 1; tickit_unref(T); } return 1; }   /* drop the application's reference */
   if(a[0] == 'e') { errno = atoi(a + 1); return 1; }
   if(a[0] == 'k') { int s = atoi(a + 1); if(is_watched(s)) raise(s); return 1; }
   return 0;
@@ -304,14 +329,17 @@ static void loop_case(void)
 {
   size_t heap_before = __sanitizer_get_current_allocated_bytes();
   outn = 0; out[0] = 0;
-  nws = 0; vclock = 0; iter = 0; ninwait = 0; sleep_mode = 0; run_mode = 0;
+  nws = 0; vclock = 0; iter = 0; ninwait = 0; sleep_mode = 0; run_mode = 0; dropped = 0;
   for(int i = 0; i < MAXCB; i++) cbs[i] = ubs[i] = NULL;
+  for(int i = 0; i < MAXW; i++) child_status[i] = -1;
   for(int j = 0; j < NFD; j++) ready[j] = 0;
   int fallback = vh_ntok > 0 && strcmp(vh_tok[0], "F") == 0;
+  int chaincase = vh_ntok > 0 && vh_tok[0][0] == 'W';
   nbetween = 0; sigpipe_rd = fallback ? -2 : -1;
   T = tickit_build(&(struct TickitBuilder){ .tt = (TickitTerm *)tickit_mockterm_new(2, 2), .evhooks = fallback ? &f_hooks : NULL });
-  for(int i = fallback; i < vh_ntok; i++) {
+  for(int i = fallback + chaincase; i < vh_ntok; i++) {
     char *a = vh_tok[i];
+    if(dropped) break;      /* the instance is gone */
     if((a[0] == 'c' || a[0] == 'u') && a[1] == 'b') {
       char *eq = strchr(a, '=');
       int k = atoi(a + 2);
@@ -333,6 +361,16 @@ static void loop_case(void)
       tickit_run(T);
       run_mode = 0;
     }
+    else if(a[0] == 'X') {
+      int id = 0, st = 0; sscanf(a + 1, "%d:%d", &id, &st);
+      if(id >= 0 && id < MAXW && child_status[id] == -1) child_status[id] = st;
+    }
+    else if(a[0] == 'G') {
+      tickit_evloop_invoke_sigwatches(T, atoi(a + 1));   /* the event loop dispatches a signal */
+    }
+    else if(a[0] == 'H') {
+      tickit_evloop_invoke_sigwatches(T, SIGCHLD);      /* the event loop dispatches SIGCHLD */
+    }
     else if(a[0] == 'R') {
       int f = 0, rv = 0; sscanf(a + 1, "%d:%d", &f, &rv);
       ready[f % NFD] = rv;
@@ -350,7 +388,7 @@ static void loop_case(void)
   sigset_t pend; sigpending(&pend);
   for(int s = 1; s < 32; s++)
     if(sigismember(&pend, s)) signal(s, SIG_IGN);
-  tickit_unref(T);
+  if(!dropped) tickit_unref(T);
   T = NULL;
   /* everything the instance allocated must be gone (the dropped timer of defect #22) */
   if(__sanitizer_get_current_allocated_bytes() > heap_before) OUT("LEAK ");
